@@ -139,6 +139,19 @@ def run(ctx) -> None:
                 ctx.fail("OWN", f, eff.call, f"`{short(eff.call)}` writes to a path not derived from {roots[0]} (origins: {sorted(og)})", construct=what)
 
     # ---- (4) key integrity -------------------------------------------------
+    check_key(ctx)
+
+    # ---- (5) pickle agreement ---------------------------------------------
+    _check_pickle_agreement(ctx)
+
+
+def check_key(ctx, rule: str = "KEY") -> None:
+    """The cache entry is named by the temp dir, the package version and the full sha256 of the unmodified model text, and the
+    text that is parsed is the text that is hashed (shared with C24: no foreign entry; C04: locations belong to the text read)."""
+    p = ctx.p
+    load_model = p.func("run:load_model")
+    cfg = artefacts(ctx.ty, load_model).cfg
+    defs = own.local_defs(load_model)
     og = own.origins(load_model, ast.Name(id="cache_path", ctx=ast.Load()), defs)
     need = {"call:hashlib.sha256": "sha256", "model_path": "the model file", "global:aas_core_codegen.__version__": "the package version", "call:tempfile.gettempdir": "the temp dir"}
     missing = [v for k, v in need.items() if k not in og]
@@ -166,21 +179,21 @@ def run(ctx) -> None:
         if isinstance(n, ast.Subscript) and dotted_of(n.value) == "text_hash":
             truncated = n
     if truncated is not None:
-        ctx.fail("KEY", load_model, truncated, f"`{short(truncated)}` uses only a part of the digest in the cache key: two different model texts can share an entry, and the second run silently generates from the first model", construct="cache key uses the full digest")
+        ctx.fail(rule, load_model, truncated, f"`{short(truncated)}` uses only a part of the digest in the cache key: two different model texts can share an entry, and the second run silently generates from the first model", construct="cache key uses the full digest")
     else:
-        ctx.ok("KEY", load_model, load_model.node, what="the digest enters the cache key in full")
+        ctx.ok(rule, load_model, load_model.node, what="the digest enters the cache key in full")
     if missing or not whole or not hashed_whole:
-        ctx.fail("KEY", load_model, load_model.node, "cache_path does not depend on " + (", ".join(missing) if missing else "sha256 of the unmodified full text"), construct="cache_path")
+        ctx.fail(rule, load_model, load_model.node, "cache_path does not depend on " + (", ".join(missing) if missing else "sha256 of the unmodified full text"), construct="cache_path")
     else:
-        ctx.ok("KEY", load_model, load_model.node, what="cache_path <- tempdir / version / sha256(text.encode()), text = model_path.read_text()")
+        ctx.ok(rule, load_model, load_model.node, what="cache_path <- tempdir / version / sha256(text.encode()), text = model_path.read_text()")
     # parser input is the same text
     src_calls = find_calls(load_model.node, lambda c: (dotted_of(c.func) or "").endswith("source_to_atok"))
     ctx.require_anchor(len(src_calls) == 1, "load_model calls parse.source_to_atok")
     sv = kwarg(src_calls[0], "source", 0)
     if isinstance(sv, ast.Name) and sv.id == "text":
-        ctx.ok("KEY", load_model, src_calls[0], what="the parsed text is the hashed text")
+        ctx.ok(rule, load_model, src_calls[0], what="the parsed text is the hashed text")
     else:
-        ctx.fail("KEY", load_model, src_calls[0], "the text that is parsed is not the text that is hashed", construct="source_to_atok(source=...)")
+        ctx.fail(rule, load_model, src_calls[0], "the text that is parsed is not the text that is hashed", construct="source_to_atok(source=...)")
     # success returns have the same shape
     shapes = []
     for node in cfg.nodes:
@@ -195,14 +208,12 @@ def run(ctx) -> None:
             return d.split(".")[-1].replace("ir_", "")
         kinds = {tuple(tail(e) for e in a.elts) for a in ok_shapes}
         if kinds == {("symbol_table", "atok")}:
-            ctx.ok("KEY", load_model, shapes[0][0].stmt, what="cached and uncached success returns are (symbol_table, atok), None")
+            ctx.ok(rule, load_model, shapes[0][0].stmt, what="cached and uncached success returns are (symbol_table, atok), None")
         else:
-            ctx.fail("KEY", load_model, shapes[0][0].stmt, f"success returns differ in shape: {sorted(kinds)}", construct="success returns")
+            ctx.fail(rule, load_model, shapes[0][0].stmt, f"success returns differ in shape: {sorted(kinds)}", construct="success returns")
     else:
-        ctx.fail("KEY", load_model, load_model.node, "expected a cached and an uncached success return of the form ((symbol_table, atok), None)", construct="success returns")
+        ctx.fail(rule, load_model, load_model.node, "expected a cached and an uncached success return of the form ((symbol_table, atok), None)", construct="success returns")
 
-    # ---- (5) pickle agreement ---------------------------------------------
-    _check_pickle_agreement(ctx)
 
 
 def _singular(name: str) -> str:
